@@ -12,7 +12,7 @@ Abstract syntax (JSON-able lists):
 
  block statements
   ["ev", label] ["take", label] ["wait"] ["waitfor", n, unit] ["waituntil", k]
-  ["do", [names], mod]      mod: None | ["for", n, unit] | ["until", k]
+  ["do", [names], mod]      mod: None | ["for", n, unit] | ["until", k] | ["untilrnd", n]
   ["choose", [[name, w], ...], dictform] ["shuffle", [[name, w], ...], dictform]
   ["terminate"] ["terminatesim"] ["require", k]
   ["if", k, then, else] ["loop", n, body] ["while", body]
@@ -86,6 +86,8 @@ def render_block(stmts, ind, out, in_beh):
                 out.append(f"{pad}do {calls}")
             elif mod[0] == "for":
                 out.append(f"{pad}do {calls} for {_dur(mod[1], mod[2])}")
+            elif mod[0] == "untilrnd":
+                out.append(f"{pad}do {calls} until DiscreteRange(0, {mod[1] - 1}) == 0")
             else:
                 out.append(f"{pad}do {calls} until {_c(mod[1], 'until')}")
         elif op in ("choose", "shuffle"):
@@ -565,6 +567,10 @@ class Ref:
             limit = self.steps_of(mod[1], mod[2])
             start = self.t
             cond = lambda: self.t - start >= limit  # noqa: E731
+        elif mod[0] == "untilrnd":
+            # a distribution inside the condition is sampled afresh at every evaluation
+            n = mod[1]
+            cond = lambda: self.pick([1] * n) == 0  # noqa: E731
         else:
             k = mod[1]
             cond = lambda: self.tab(k)  # noqa: E731
